@@ -116,7 +116,8 @@ def strategy(tier):
                 routes = ["setattr", "setitem", "load_tree", "loads"]
             return st.fixed_dictionaries({
                 "spec": st.just(spec), "target": st.just(i), "value": val, "route": st.sampled_from(routes), "fmt": st.sampled_from(trees.FORMATS),
-                "n_before": st.integers(0, 3) if kind != "item-leaf" else st.integers(1, 4), "index": st.integers(0, 3), "dkey": st.sampled_from(["a", "k1", "Key", "x.y", "", "1"]),
+                "n_before": st.integers(0, 3) if kind != "item-leaf" else st.integers(1, 4), "index": st.integers(0, 3), "dkey": (st.sampled_from([(2, 2), (5,), (), 5, ("a", "b", "c"), 1.5, True, "a", "Key", b"k"]) if kind == "dict-entry" and not t[2].get("keyf")
+                         else st.sampled_from(["a", "k1", "Key", "x.y", "", "1"])),
                 "good": st.lists(specs.values(t[2]["item"]) if kind == "list-item" else st.none(), min_size=3, max_size=3),
                 "built_by": st.sampled_from(["assign", "load_tree"]),
                 "shift": st.lists(st.sampled_from(["del0", "pop", "insert0", "reverse", "append", "swap"]), min_size=0 if kind != "item-leaf" else 1, max_size=3),
@@ -242,7 +243,7 @@ def run_case(case, R):
                     return
                 if refmodel.ref(vf, value, ctx)[0] != REJ:
                     return
-                want = "%s[%s]" % (".".join(path), key)
+                want = "%s[%s]" % (".".join(path), str(key))
                 R.label("route:inplace" if route in ("setkey", "update", "setdefault") else "route:container" if route == "assign-dict" else "route:x")
                 if route in ("setkey", "update", "setdefault"):
                     try:
